@@ -313,3 +313,16 @@ CHECKS['C10'].update({
     'technique': "Lean 4 invariant proofs over all strings on a faithful parser model (well-formedness of the emitted regex, bracket ranges) + "
                  "regex-text correspondence (K1) + re.compile and API exception search",
 })
+CHECKS['C18'].update({
+    'text': "Theorems (Lean), on the faithful port of WcParse, for EVERY pattern string and EVERY configuration: bytes_str_twin — the bytes pass and "
+            "the str pass succeed or fail alike and emit regexes related by ReBytesTwin (equal except the full-range spelling of a class emptied by "
+            "the reversed-range check: `\\x00-\\xff` vs `\\x00-\\U0010ffff`; POSIX items literally equal because the two tables agree, "
+            "posix_tables_agree lifted to all names); bytes_str_same_matches — on every subject whose code units are < 256 the two regexes have "
+            "the same FullMatch and PrefixMatch (M-level congruence, by induction on Re; the Latin-1 restriction is shown necessary by a "
+            "decide+kernel witness); bytes_str_winDrive — the same with the real Windows-drive scanner; directed refinement bytes_str_dir. Generated "
+            "twin constants agree (helper regexes, flags). Tie: K1 on x and encode(x), the per-pattern strip certificate; search: translate / "
+            "compile / match / filter / escape / glob / WcMatch on str vs bytes, bytes 0x80-0xff against bracket and POSIX forms, mixed types.",
+    'note': TB + "glob/WcMatch result sequences for bytes roots and the TypeError for mixed types are searched, not proved (they sit above the parser).",
+    'technique': "Lean 4 relational (two-run) simulation proof over all strings on a faithful parser model + M-level congruence + generated twin "
+                 "equalities; str-vs-bytes API search",
+})
